@@ -1,6 +1,10 @@
 package rules
 
-import "golang.org/x/tools/go/ssa"
+import (
+	"go/types"
+
+	"golang.org/x/tools/go/ssa"
+)
 
 // scopeData: functions reachable from the data-facing API, outside recover scopes.
 func (c *Ctx) scopeData() map[*ssa.Function]bool {
@@ -16,7 +20,46 @@ func (c *Ctx) scopeAll() map[*ssa.Function]bool {
 	return out
 }
 
+// lockTargets: every struct of the SDK with a sync.Mutex field.
+func (c *Ctx) lockTargets(pkgs ...string) map[*types.Named]string {
+	out := map[*types.Named]string{}
+	for _, pn := range pkgs {
+		pkg := c.M.Types[pn]
+		if pkg == nil {
+			continue
+		}
+		for _, name := range pkg.Scope().Names() {
+			tn, ok := pkg.Scope().Lookup(name).(*types.TypeName)
+			if !ok {
+				continue
+			}
+			named, ok := tn.Type().(*types.Named)
+			if !ok {
+				continue
+			}
+			st, ok := named.Underlying().(*types.Struct)
+			if !ok {
+				continue
+			}
+			for i := 0; i < st.NumFields(); i++ {
+				if isNamed(st.Field(i).Type(), "sync", "Mutex") {
+					out[named] = st.Field(i).Name()
+					break
+				}
+			}
+		}
+	}
+	return out
+}
+
 func init() {
+	register(&PropSpec{
+		ID:          "C05",
+		Explanation: "R-LOCKSET",
+		Rules: []func(*Ctx){
+			func(c *Ctx) { c.ruleLockset("R-LOCKSET", c.lockTargets("atp", "schema")) },
+		},
+	})
 	register(&PropSpec{
 		ID:          "C12",
 		Explanation: "R-MAPORDER",
